@@ -729,6 +729,10 @@ static void rdA_del(var self) { (void)self; rd_dtor[0]++; }
 static void rdB_new(var self, var args) { (void)args; rd_ctor[1]++; memset(self, 0x6B, 64); }
 static void rdB_del(var self) { rd_dtor[1]++; unsigned char* p = self; for (int i = 0; i < 64; i++) { if (p[i] != 0x6B) { rd_dtor[1] += 1000; break; } } }
 static size_t rd_size40(void) { return 40; }
+static uint64_t rdA_hash(var self) { (void)self; return 1111; }
+static uint64_t rdB_hash(var self) { (void)self; return 2222; }
+static size_t rdA_len(var self) { (void)self; return 1; }
+static size_t rdB_len(var self) { (void)self; return 2; }
 static var rd_instance(var cls, void* f0, void* f1) {
   char* blk = calloc(1, sizeof(struct Header) + 2 * sizeof(var));
   var inst = header_init(blk, cls, AllocHeap);
@@ -739,8 +743,8 @@ static void redefined_type(vh_rng* r) {
   char nm[32]; snprintf(nm, sizeof nm, "Redef%ld", (long)vh_below(r, 1000000));
   char* name = strdup(nm);
   int with_size_instance = (int)vh_below(r, 2);
-  var T = with_size_instance ? new_root(Type, $S(name), $I(16), rd_instance(New, (void*)rdA_new, (void*)rdA_del), rd_instance(Size, (void*)rd_size40, NULL))
-                             : new_root(Type, $S(name), $I(16), rd_instance(New, (void*)rdA_new, (void*)rdA_del));
+  var T = with_size_instance ? new_root(Type, $S(name), $I(16), rd_instance(New, (void*)rdA_new, (void*)rdA_del), rd_instance(Size, (void*)rd_size40, NULL), rd_instance(Hash, (void*)rdA_hash, NULL), rd_instance(Len, (void*)rdA_len, NULL))
+                             : new_root(Type, $S(name), $I(16), rd_instance(New, (void*)rdA_new, (void*)rdA_del), rd_instance(Hash, (void*)rdA_hash, NULL), rd_instance(Len, (void*)rdA_len, NULL));
   long c0[2] = { rd_ctor[0], rd_ctor[1] }, d0[2] = { rd_dtor[0], rd_dtor[1] };
   /* first definition in use: every lookup it needs has happened */
   var x = new_raw_with(T, tuple());
@@ -748,11 +752,12 @@ static void redefined_type(vh_rng* r) {
   size_t want1 = with_size_instance ? 40 : 16;
   if (size(T) != want1 || type_of(x) != T) { vh_violation(K("runtime-type-first-definition", "new"), "first definition: size %zu (expected %zu)", size(T), want1); }
   memset(x, 0x11, want1);
+  if (hash(x) != 1111 || len(x) != 1) { vh_violation(K("runtime-type-first-definition", "new"), "first definition: hash %" PRIu64 ", len %zu", hash(x), len(x)); }
   del_raw(x);
   if (rd_ctor[0] - c0[0] != 1 || rd_dtor[0] - d0[0] != 1) { vh_violation(K("runtime-type-first-definition", "new"), "first definition: constructor ran %ld times, destructor %ld times", rd_ctor[0] - c0[0], rd_dtor[0] - d0[0]); }
   /* second definition, in place: 64 bytes, another constructor and destructor, no Size instance */
   var exc = NULL;
-  VH_CATCH(construct(T, $S(name), $I(64), rd_instance(New, (void*)rdB_new, (void*)rdB_del)), exc);
+  VH_CATCH(construct(T, $S(name), $I(64), rd_instance(New, (void*)rdB_new, (void*)rdB_del), rd_instance(Hash, (void*)rdB_hash, NULL), rd_instance(Len, (void*)rdB_len, NULL)), exc);
   if (exc) { vh_violation(K("runtime-type-redefinition-raised", "construct"), "construct on a Type object in use raised %s", vh_exc_name(exc)); del_root(T); return; }
   vh_evals(4);
   if (size(T) != 64) { vh_violation(K("runtime-type-size-from-the-replaced-definition", "construct"), "after the type was constructed again with size 64 (first definition %s), size(T) is %zu", with_size_instance ? "had a Size instance saying 40" : "had size 16", size(T)); }
@@ -760,6 +765,7 @@ static void redefined_type(vh_rng* r) {
     c0[0] = rd_ctor[0]; c0[1] = rd_ctor[1]; d0[0] = rd_dtor[0]; d0[1] = rd_dtor[1];
     var y = new_raw_with(T, tuple());            /* the new constructor fills all 64 bytes, the new destructor checks them */
     if (type_of(y) != T) { vh_violation(K("wrong-type", "redefined type"), "object of the redefined type reports another type"); }
+    if (hash(y) != 2222 || len(y) != 2) { vh_violation(K("runtime-type-instances-from-the-replaced-definition", "construct"), "after the redefinition hash gives %" PRIu64 " (new definition: 2222) and len %zu (new definition: 2)", hash(y), len(y)); }
     del_raw(y);
     if (rd_ctor[1] - c0[1] != 1 || rd_dtor[1] - d0[1] != 1 || rd_ctor[0] != c0[0] || rd_dtor[0] != d0[0]) {
       vh_violation(K("runtime-type-instances-from-the-replaced-definition", "construct"), "after the redefinition: new constructor %ld, new destructor %ld, old constructor %ld, old destructor %ld calls for one object made and deleted",
@@ -768,6 +774,33 @@ static void redefined_type(vh_rng* r) {
   }
   vh_count("runtime_types_constructed_again_in_place");
   del_root(T);
+}
+
+/* ---------- an in-place resize to a smaller, non-zero length ----------
+** The elements that stay are the ones that were there (never released, still of their type, still holding what they
+** held); the ones that go are released once (ASan sees a release of a survivor's buffer, or a second release). */
+static void shrink_keeps_survivors(vh_rng* r) {
+  int n = 2 + (int)vh_below(r, 12), keep = 1 + (int)vh_below(r, (uint64_t)n - 1);
+  for (int list = 0; list < 2; list++) {
+    var c = list ? (var)new(List, String) : (var)new(Array, String);
+    char b[32];
+    for (int i = 0; i < n; i++) { snprintf(b, sizeof b, "element-%d-of-%d", i, n); push(c, $S(b)); }
+    var exc = NULL;
+    VH_CATCH(resize(c, (size_t)keep), exc);
+    vh_evals(3);
+    if (exc) { vh_violation(K("shrinking-resize-raised", "resize"), "resize(%s of %d Strings, %d) raised %s", list ? "List" : "Array", n, keep, vh_exc_name(exc)); del(c); continue; }
+    int ok = len(c) == (size_t)keep;
+    for (int i = 0; ok && i < keep; i++) {
+      var x = get(c, $I(i));
+      snprintf(b, sizeof b, "element-%d-of-%d", i, n);
+      observe(x, String, AllocData, "element that survived a shrinking resize");
+      if (strcmp(c_str(x), b) != 0) { ok = 0; }
+    }
+    if (!ok) { vh_violation(K("embedded-object-released-by-an-in-place-resize", "resize"), "after resize(%s of %d Strings, %d) the first %d elements are not the ones that were there", list ? "List" : "Array", n, keep, keep); }
+    push(c, $S("pushed after the resize"));
+    del(c);
+    vh_count("shrinking_resizes_of_string_sequences");
+  }
 }
 
 static void case_random(vh_rng* r, long index) {
@@ -781,6 +814,7 @@ static void case_random(vh_rng* r, long index) {
   stack_object_frame((int)(index % 3));
   mutual_owners_released_once(r);
   redefined_type(r);
+  shrink_keeps_survivors(r); shrink_keeps_survivors(r);
   if (index % 4 == 0) { run_fresh_thread(); }
   vh_nontrivial();
 }
